@@ -58,6 +58,7 @@ WIT = [
 
 # fixed: (property, commit subject fragment, key, what failed)
 FIXED = [
+ ('C02', 'fold a comparison of two constant strings', 'C02.string-folder-distinguishes-comparisons:qbee/expr.py:BinaryOp._eval_string:operator-tested', 'PRINT "a" < "b" at -O1/-O2: ValueError invalid literal for int() \'ab\' in the compiler (the folder concatenated the operands of a string comparison); fine at -O0'),
  ('C02', 'fold constant comparisons in the common type', 'C02.comparison-folded-in-operand-type:qbee/expr.py:BinaryOp._eval_numeric:coerce(self.left.eval())', 'PRINT 1.2 < 1.4 printed 0 at -O1/-O2 and -1 at -O0 (operands coerced to the INTEGER result type before comparing); PRINT 2.5# = 2.4# printed -1; same in CONST and in the debugger print command'),
  ('C02', 'detect LONG overflow', 'C02.fold-range-equals-runtime-range:qbee/expr.py:BinaryOp._eval_numeric.limit[LONG]', 'x& = 2147483647 + 1 at -O1: folded with 64-bit c_long, bytes(code) raised struct.error'),
  ('C04', 'readidx writes the default', 'C04.default-written-where-read:qvm/cpu.py:_exec_readidx*-family', 'r.b = 7 : PRINT q.b : PRINT r.b printed 0 (default written to idx instead of var+idx)'),
